@@ -270,7 +270,7 @@ func (ir *ifdReader) ParseSubSecTime(t Tag) uint16 {
 func (ir *ifdReader) parseLensInfo(t Tag) LensInfo {
 	if !t.IsEmbedded() {
 		buf, err := ir.readTagValue()
-		if err != nil {
+		if err != nil || len(buf) < 32 {
 			return LensInfo{}
 		}
 		return LensInfo{
@@ -288,7 +288,7 @@ func (ir *ifdReader) ParseRationalU(t Tag) [2]uint32 {
 	switch t.Type {
 	case tag.TypeSignedRational, tag.TypeRational:
 		buf, err := ir.readTagValue()
-		if err != nil {
+		if err != nil || len(buf) < 8 {
 			return [2]uint32{}
 		}
 		return [2]uint32{t.ByteOrder.Uint32(buf[:4]), t.ByteOrder.Uint32(buf[4:8])}
@@ -375,7 +375,7 @@ func (ir *ifdReader) ParseBuffer(t Tag) []byte {
 func (ir *ifdReader) ParseDate(t Tag) time.Time {
 	if t.IsType(tag.TypeASCII) {
 		buf, err := ir.readTagValue()
-		if err != nil {
+		if err != nil || len(buf) < 19 {
 			return time.Time{}
 		}
 		// check recieved value
@@ -401,7 +401,7 @@ func (ir *ifdReader) ParseDate(t Tag) time.Time {
 func (ir *ifdReader) ParseOffsetTime(t Tag) *time.Location {
 	if t.IsType(tag.TypeASCII) {
 		buf, err := ir.readTagValue()
-		if err != nil {
+		if err != nil || len(buf) < 6 {
 			return time.UTC
 		}
 		if buf[3] == ':' {
@@ -435,7 +435,7 @@ func (ir *ifdReader) ParseGPSCoord(t Tag) float64 {
 		switch t.Type {
 		case tag.TypeRational, tag.TypeSignedRational: // Some cameras write tag out of spec using signed rational. We accept that too.
 			buf, err := ir.readTagValue()
-			if err != nil {
+			if err != nil || len(buf) < 24 {
 				return 0.0
 			}
 			coord := (float64(t.ByteOrder.Uint32(buf[:4])) / float64(t.ByteOrder.Uint32(buf[4:8])))
@@ -456,7 +456,7 @@ func (ir *ifdReader) ParseGPSAltitude(t Tag) float32 {
 		switch t.Type {
 		case tag.TypeRational, tag.TypeSignedRational: // Some cameras write tag out of spec using signed rational. We accept that too.
 			buf, err := ir.readTagValue()
-			if err != nil {
+			if err != nil || len(buf) < 8 {
 				return 0.0
 			}
 			return (float32(t.ByteOrder.Uint32(buf[:4])) / float32(t.ByteOrder.Uint32(buf[4:8])))
@@ -472,7 +472,7 @@ func (ir *ifdReader) ParseGPSAltitude(t Tag) float32 {
 func (ir *ifdReader) parseGPSTimeStamp(t Tag) uint32 {
 	if t.UnitCount == 3 && t.Type == tag.TypeRational {
 		buf, err := ir.readTagValue()
-		if err != nil {
+		if err != nil || len(buf) < 24 {
 			return 0
 		}
 		var result uint32
@@ -504,7 +504,7 @@ func (ir *ifdReader) parseGPSTimeStamp(t Tag) uint32 {
 func (ir *ifdReader) parseGPSDateStamp(t Tag) time.Time {
 	if t.IsType(tag.TypeASCII) {
 		buf, err := ir.readTagValue()
-		if err != nil {
+		if err != nil || len(buf) < 10 {
 			return time.Time{}
 		}
 		// check recieved value
@@ -512,8 +512,8 @@ func (ir *ifdReader) parseGPSDateStamp(t Tag) time.Time {
 			return time.Date(int(parseStrUint(buf[0:4])), time.Month(parseStrUint(buf[5:7])), int(parseStrUint(buf[8:10])), 0, 0, 0, 0, time.UTC)
 		}
 		// check recieved value
-		if buf[4] == ':' && buf[7] == ':' && buf[10] == ' ' &&
-			buf[13] == ':' && buf[16] == ':' && len(buf) > 19 {
+		if len(buf) > 19 && buf[4] == ':' && buf[7] == ':' && buf[10] == ' ' &&
+			buf[13] == ':' && buf[16] == ':' {
 			return time.Date(
 				int(parseStrUint(buf[0:4])),
 				time.Month(parseStrUint(buf[5:7])),
